@@ -26,22 +26,33 @@ static parsec_task_class_t g_tc[2];     /* [0] plain, [1] PARSEC_HIGH_PRIORITY_T
 static parsec_taskpool_t *g_tp;         /* dummy, never enqueued; some debug paths print taskpool fields */
 static char g_group_anchor[64];         /* data_in identities for ltq's "shares an input" grouping */
 
-int ss_init(int nstreams, const char *sched)
+/* nvp <= 1: flat map with nstreams streams; nvp > 1: --mca runtime_vpmap rr:<nvp>:<tpv>:<cores> (nstreams = nvp * tpv) */
+int ss_init_vp(int nstreams, const char *sched, int nvp, int tpv)
 {
     int provided = 0;
     int argc = 4;
-    char *argv_s[5] = { (char *)"c08", (char *)"--mca", (char *)"mca_sched", (char *)sched, NULL };
+    char map[64];
+    char *argv_s[8] = { (char *)"c08", (char *)"--mca", (char *)"mca_sched", (char *)sched, NULL, NULL, NULL, NULL };
     char **argv = argv_s;
+    if (nvp > 1) {
+        snprintf(map, sizeof map, "rr:%d:%d:%d", nvp, tpv, nstreams < 16 ? nstreams : 16);
+        argv_s[4] = (char *)"--mca"; argv_s[5] = (char *)"runtime_vpmap"; argv_s[6] = map; argc = 7;
+    }
     MPI_Init_thread(NULL, NULL, MPI_THREAD_SERIALIZED, &provided);
     g_ctx = parsec_init(nstreams, &argc, &argv);
     if (NULL == g_ctx) return -1;
     if (NULL == parsec_current_scheduler) return -2;
+    if (nvp > 1) {   /* the map must have taken effect */
+        if (g_ctx->nb_vp != nvp) return -3;
+        for (int v = 0; v < nvp; v++) if (g_ctx->virtual_processes[v]->nb_cores != tpv || g_ctx->virtual_processes[v]->vp_id != v) return -4;
+    }
     memset(g_tc, 0, sizeof g_tc);
     g_tc[0].name = "h_plain"; g_tc[0].nb_flows = 2; g_tc[0].flags = 0;
     g_tc[1].name = "h_hp";    g_tc[1].nb_flows = 2; g_tc[1].flags = PARSEC_HIGH_PRIORITY_TASK;
     g_tp = (parsec_taskpool_t *)calloc(1, sizeof(parsec_taskpool_t));
     return 0;
 }
+int ss_init(int nstreams, const char *sched) { return ss_init_vp(nstreams, sched, 1, nstreams); }
 
 const char *ss_sched_name(void) { return parsec_current_scheduler->component->base_version.mca_component_name; }
 int ss_nb_vp(void) { return g_ctx->nb_vp; }
@@ -130,6 +141,14 @@ int ss_schedule_vp(void *sub_es, int vp, void *ring, int distance)
     parsec_task_t *rings[64];
     for (int i = 0; i < g_ctx->nb_vp && i < 64; i++) rings[i] = NULL;
     rings[vp] = (parsec_task_t *)ring;
+    return __parsec_schedule_vp((parsec_execution_stream_t *)sub_es, rings, distance);
+}
+
+/* __parsec_schedule_vp with one ring per virtual process (NULL = nothing for that VP) */
+int ss_schedule_vp_rings(void *sub_es, void **rings_in, int distance)
+{
+    parsec_task_t *rings[64];
+    for (int i = 0; i < g_ctx->nb_vp && i < 64; i++) rings[i] = (parsec_task_t *)rings_in[i];
     return __parsec_schedule_vp((parsec_execution_stream_t *)sub_es, rings, distance);
 }
 
